@@ -145,7 +145,7 @@ impl Tables {
                 pathcases.push((1, t, 0));
             }
         }
-        Tables { thorough, pathcases, reps: reps() }
+        Tables { thorough, pathcases, reps: reps(thorough) }
     }
     pub fn total(&self, s: Space) -> u64 {
         match s {
@@ -240,9 +240,9 @@ impl Tables {
         let dtl = ((case / 16) % 16) as u8;
         let stl = (case % 16) as u8;
         let p0 = 28 + host_len(dtl) + host_len(stl);
-        // a triple whose path cannot fit any 1020-byte header is rejected whatever the address
-        // types are: cross it with the 16 address LENGTH pairs only
-        if pt == 1 && 36 + std_size(seg) > 1032 && (dtl >> 2 != 0 || stl >> 2 != 0) {
+        // the full cube is crossed with the 16 address LENGTH pairs (DT = ST = 0); all 256 type/length
+        // nibble pairs are crossed with the reduced cube and with the other path types
+        if pt == 1 && (36 + std_size(seg) > 1032 || !in_reduced(seg)) && (dtl >> 2 != 0 || stl >> 2 != 0) {
             env.acc.count("header_cases_not_crossed_with_address_type_bits", 1);
             return;
         }
@@ -430,7 +430,7 @@ fn l4_decode(case: u64) -> (usize, usize, usize, usize) {
 }
 
 /// representative accepted buffers for the mutator-sequence space
-fn reps() -> Vec<Rep> {
+fn reps(thorough: bool) -> Vec<Rep> {
     let mut v = vec![];
     let f = Fill::Pattern;
     let paths: Vec<(u8, Vec<u8>, &str)> = vec![
@@ -444,7 +444,11 @@ fn reps() -> Vec<Rep> {
         (2, gen_onehop(f), "onehop"),
         (3, pat(8, 0x50, f), "unsupported(3,8B)"),
     ];
-    let hosts = [(0u8, 0u8, "v4/v4"), (0b0011, 0b0100, "v6/svc"), (0b1111, 0b1001, "unk3x16/unk2x8")];
+    let mut paths = paths;
+    if !thorough {
+        paths.retain(|p| ["empty", "std(2,3)", "std(2,0,2)", "onehop", "unsupported(3,8B)"].contains(&p.2));
+    }
+    let hosts: Vec<(u8, u8, &str)> = if thorough { vec![(0u8, 0u8, "v4/v4"), (0b0011, 0b0100, "v6/svc"), (0b1111, 0b1001, "unk3x16/unk2x8")] } else { vec![(0u8, 0u8, "v4/v4"), (0b0011, 0b0100, "v6/svc")] };
     let mut l4s: Vec<(u8, Vec<u8>, String)> = vec![(17, refl4::RUdp { src_port: 1, dst_port: 2, length: 12, checksum: 0, data: vec![1, 2, 3, 4] }.to_bytes_raw(), "udp".into()), (253, vec![9; 5], "raw".into())];
     for ty in [1u8, 2, 4, 5, 6, 128, 129, 130, 131, 0, 255] {
         let mut b = pat(refl4::scmp_fixed_len(ty).max(8) + 36, 0x70, f);
@@ -460,9 +464,10 @@ fn reps() -> Vec<Rep> {
         l4s.push((202, b, "scmp1+quoted-udp".into()));
     }
     for (pt, path, pn) in &paths {
-        for (dtl, stl, hn) in hosts {
-            let natural = 28 + host_len(dtl) + host_len(stl) + path.len();
+        for (dtl, stl, hn) in &hosts {
+            let natural = 28 + host_len(*dtl) + host_len(*stl) + path.len();
             for (next, l4, ln) in &l4s {
+                let (dtl, stl, hn) = (*dtl, *stl, *hn);
                 let mut b = gen_header(*pt, dtl, stl, path, (natural / 4) as u8, *next, l4.len() as u16, f);
                 b.extend_from_slice(l4);
                 let kinds: &[&'static str] = match *next {
